@@ -779,7 +779,8 @@ fn push_prefix(
     let mut child = None;
     if let Some(node) = node {
         for it in &mut node.children {
-            if it.label == *label {
+            /* Offsets of 0x4000 and beyond cannot be expressed in a compression pointer. */
+            if it.label == *label && it.data < 0x4000 {
                 child = Some(&mut *it);
             }
         }
@@ -803,7 +804,7 @@ fn push_prefix(
                 children.push_back(r);
                 Some(DomainTree {
                     label: label.clone(),
-                    data: offset as u16,
+                    data: offset.min(0xFFFF) as u16,
                     children,
                 })
             }
@@ -825,7 +826,7 @@ fn push_prefix(
                 push_label(v, label);
                 Some(DomainTree {
                     label: label.clone(),
-                    data: offset as u16,
+                    data: offset.min(0xFFFF) as u16,
                     children: std::collections::LinkedList::new(),
                 })
             }
